@@ -239,9 +239,14 @@ class FnExec:
             az, bz = (to_real(a), to_real(b)) if real else (a.z, b.z); t = REAL if real else INT
             if op == "Add": return Val(t, az + bz)
             if op == "Sub": return Val(t, az - bz)
-            if op == "Mult": return Val(t, az * bz)
+            opaque = getattr(self.spec, "opaque_arith", False) and real and not (z3.is_rational_value(z3.simplify(az)) or z3.is_rational_value(z3.simplify(bz)))
+            if op == "Mult":
+                # opaque_arith: products / quotients of two non-constant reals become uninterpreted functions (code and contract are translated alike, so
+                # only congruence is used); this keeps nonlinear arithmetic out of queries whose proof is pure bookkeeping.  Sound: fewer facts.
+                return Val(t, z3.Function("real_mul", z3.RealSort(), z3.RealSort(), z3.RealSort())(az, bz) if opaque else az * bz)
             if op == "Div":
-                self.branch_exc(pc, bz == 0, "ZeroDivisionError", n); return Val(REAL, az / bz)
+                self.branch_exc(pc, bz == 0, "ZeroDivisionError", n)
+                return Val(REAL, z3.Function("real_div", z3.RealSort(), z3.RealSort(), z3.RealSort())(az, bz) if opaque else az / bz)
             if op == "FloorDiv" and not real:
                 self.branch_exc(pc, bz == 0, "ZeroDivisionError", n); return Val(INT, py_floordiv(az, bz))
             if op == "Mod" and not real:
@@ -324,6 +329,7 @@ class FnExec:
         if len(n.generators) != 1 or n.generators[0].ifs or n.generators[0].is_async: raise Unsupported(f"comprehension with filters / several generators at line {n.lineno}")
         g = n.generators[0]
         seq = self.expr(g.iter, st, pc)
+        if isinstance(seq.t, DictT): seq = self.keyseq(seq, pc)          # iterating a dict visits its keys (order unspecified)
         if not isinstance(seq.t, ListT): raise Unsupported(f"comprehension over {seq.t!r}")
         q = fresh_int("cq"); rng = z3.And(0 <= q, q < seq.t.len(seq.z))
         s2 = st.copy(); self.assign(g.target, Val(seq.t.elem, seq.t.at(seq.z, q)), s2, [])
@@ -353,6 +359,11 @@ class FnExec:
                     return Val(a.t, a.t.make(a.t.len(a.z), a.t.arr(a.z), kind=z3.BoolVal(nm == "tuple"))) if a.t.tagged else a
                 raise Unsupported(f"{nm}() of {a.t!r}")
             if nm == "iter" and len(n.args) == 1: return self.expr(n.args[0], st, pc)
+            if nm == "sum" and len(n.args) == 1:
+                a = self.expr(n.args[0], st, pc)
+                if isinstance(a.t, ListT) and isinstance(a.t.elem, (IntT, RealT)):
+                    f = z3.Function("list_sum_" + ("int" if isinstance(a.t.elem, IntT) else "real"), a.t.sort(), a.t.elem.sort())
+                    self.assumptions.add("sum(xs) of a list of numbers is a function of the list (left opaque: only its value's identity is used)"); return Val(a.t.elem, f(a.z))
             if nm in ("min", "max") and len(n.args) == 2 and not n.keywords:
                 a, b = self.expr(n.args[0], st, pc), self.expr(n.args[1], st, pc)
                 if isinstance(a.t, (IntT, RealT)) and isinstance(b.t, (IntT, RealT)):
@@ -483,16 +494,22 @@ class FnExec:
             chain = []; cur = n
             while isinstance(cur, ast.Call) and isinstance(cur.func, ast.Name) and cur.func.id == nm and len(cur.args) == 4:
                 chain.append(cur); cur = cur.args[3]
-            s2 = st; bound = []; rngs = []
+            s2 = st; bound = []; rngs = []; trig_src = []
             for q in chain:
                 lo = self.expr(q.args[1], s2, pc).z; hi = self.expr(q.args[2], s2, pc).z
                 i = fresh_int(q.args[0].id); bound.append(i); rngs.append(z3.And(lo <= i, i < hi)); s2 = self.bind_q(s2, q.args[0].id, Val(INT, i))
+                trig_src += [k.value for k in q.keywords if k.arg == "trigger"]
             body = self.expr(cur, s2, pc).z
-            return Val(BOOL, z3.ForAll(bound, z3.Implies(z3.And(*rngs), body)) if nm == "forall" else z3.Exists(bound, z3.And(*rngs, body)))
+            trigs = [self.expr(t, s2, pc).z for t in trig_src]
+            kw = {"patterns": [z3.MultiPattern(*trigs) if len(trigs) > 1 else trigs[0]]} if trigs else {}      # the triggers of the chain together form one multi-pattern
+            return Val(BOOL, z3.ForAll(bound, z3.Implies(z3.And(*rngs), body), **kw) if nm == "forall" else z3.Exists(bound, z3.And(*rngs, body), **kw))
         if nm in ("forall", "exists"):
             var = n.args[0].id; lo = self.expr(n.args[1], st, pc).z; hi = self.expr(n.args[2], st, pc).z
-            i = fresh_int(var); body = self.expr(n.args[3], self.bind_q(st, var, Val(INT, i)), pc).z
+            i = fresh_int(var); sq = self.bind_q(st, var, Val(INT, i)); body = self.expr(n.args[3], sq, pc).z
             rng = z3.And(lo <= i, i < hi)
+            trig = [self.expr(k.value, sq, pc).z for k in n.keywords if k.arg == "trigger"]
+            if trig and self.th.B is None:          # explicit E-matching trigger: forall(j, lo, hi, body, trigger=xs[j])
+                return Val(BOOL, z3.ForAll([i], z3.Implies(rng, body), patterns=trig) if nm == "forall" else z3.Exists([i], z3.And(rng, body), patterns=trig))
             if self.th.B is not None:
                 self.th.side.append(z3.And(lo >= -1, hi <= self.th.B + 1))
                 insts = [z3.substitute(z3.Implies(rng, body) if nm == "forall" else z3.And(rng, body), (i, z3.IntVal(k))) for k in range(-1, self.th.B + 1)]
@@ -858,7 +875,14 @@ class FnExec:
         # ---- arbitrary iteration
         st_h = st.copy(); wf_h = self.havoc(st_h, mods)
         g = {nm: fresh_int(f"{nm}{k}") for nm in ghosts0}
-        pc_h = list(pc) + wf_h + implicit(g) + [z for _, z in invs(st_h, g)]
+        head = invs(st_h, g); head_id = {z.get_id(): nm for nm, z in head}; uses = lspec.get("uses", {})
+        def relevant(nm, hyps):
+            """`uses`: {conjunct: [conjuncts it needs at the loop head]} -- the preservation of that conjunct is proved from those only (dropping hypotheses is sound; it
+            keeps quantified conjuncts that feed each other's triggers out of queries that do not need them)"""
+            if nm not in uses: return hyps
+            allowed = set(uses[nm]) | {nm}
+            return [h for h in hyps if head_id.get(h.get_id(), nm) in allowed]
+        pc_h = list(pc) + wf_h + implicit(g) + [z for _, z in head]
         pc_h.append(guard(g) if guard_state is None else guard_state(st_h, pc_h))
         self.oblige(f"loop{k}.canary", "canary", pc_h, z3.BoolVal(False), s)
         st_b = st_h.copy(); bind(st_b, g)
@@ -881,7 +905,7 @@ class FnExec:
                 for nm, e in lspec.get("end_hints", {}).items():
                     hz = self.spec_expr(e, s3, []).z
                     self.oblige(f"loop{k}.end_hint.{nm}", "hint", pco, hz, s); pco.append(hz)
-                for nm, z in invs(o.state, advance(g)): self.oblige(f"loop{k}.preserve.{nm}", "inv.preserve", pco, z, s)
+                for nm, z in invs(o.state, advance(g)): self.oblige(f"loop{k}.preserve.{nm}", "inv.preserve", relevant(nm, pco), z, s)
             elif o.kind == "break": outs.append(Outcome("normal", o.state, o.pc))
             else: outs.append(o)
         # ---- exit
